@@ -41,3 +41,6 @@ add("C13", "exploration", "bounded-exhaustive enumeration of symbol lists x colu
 add("C14", "exploration", "bounded-exhaustive enumeration of (bucket schema, input schema, request shape) against a conversion reference",
     "all 100 type pairs (quick: diagonal + 3 rows/columns) x 27 schema relations (same, missing, extra, renamed, reordered, each column retyped to each type) x request shapes (alone / with a well-formed bucket processed before / after); boundary values restricted to conversions the Go spec defines; rejected requests are followed by another flush to expose queued leftovers",
     TB + "; UTC", "seqmc")
+add("C15", "exploration", "bounded-exhaustive enumeration of creatable schemas x later writes x restart on the same device",
+    "column counts up to 1024 x name lengths up to 256 (1Min, 1D), every type x every timeframe, fixed/variable, explicit create and create-by-first-write, later write none / mid-year / first interval of the year; the server is restarted on the device image and must report and enforce exactly the created schema",
+    TB + "; UTC", "seqmc")
